@@ -18,7 +18,7 @@
 //! the whole execution machinery once per page).  The mock answers the k-th frame it receives for a
 //! (marker, page) with the k-th scripted outcome of that page (success when the script is used up).
 //!
-//! observation (after '|'):   `env:<n>` followed by one record per (logical request, page), or
+//! observation (after '|'):   `env:<n>:rp<in-attempt re-prepares merged>` followed by one record per (logical request, page), or
 //! `skip-env <reason>` when the session could not be built for lack of loopback ports.
 //!   record  R;api=<a>;idem=<0|1>;pol=<policy>;spec=<-|max:interval ms>;cl=<consistency>;n=<nodes>;
 //!           down=<nodes whose connection the mock has cut so far>;pg=<page>;t0=<us>;tr=<us>;mg=<us>;
@@ -146,6 +146,11 @@ enum Reply {
     Err(String),
     /// the mock cuts the connection instead of answering
     Drop,
+    /// ERROR UNPREPARED to an EXECUTE: the driver re-prepares on that connection and sends the
+    /// EXECUTE again -- inside ONE attempt (C14); the two frames are merged into one observed frame
+    Unprepared,
+    /// an ERROR frame whose body cannot be parsed (CqlErrorParseError at the driver)
+    BadError,
 }
 #[derive(Clone, Debug)]
 struct Outcome {
@@ -393,13 +398,13 @@ fn gen_spec(r: &mut Rng, mix: Mix) -> Option<(usize, u64)> {
         Mix::C06 => 40,
         Mix::C13 => 88,
     };
-    if r.below(100) < p { Some((r.range(1, 3) as usize, INTERVAL_MS)) } else { None }
+    if r.below(100) < p { Some((r.range(0, 3) as usize, INTERVAL_MS)) } else { None }
 }
 fn gen_cfg(r: &mut Rng, mix: Mix) -> Cfg {
     Cfg { pol: gen_pol(r, mix), spec: gen_spec(r, mix), cl: gen_cl(r) }
 }
 
-fn gen_page_script(r: &mut Rng, mix: Mix, spec: bool, allow_drop: bool) -> Vec<Outcome> {
+fn gen_page_script(r: &mut Rng, mix: Mix, spec: bool, allow_drop: bool, exec: bool) -> Vec<Outcome> {
     let mut v = Vec::new();
     match mix {
         Mix::C06 => {
@@ -413,6 +418,10 @@ fn gen_page_script(r: &mut Rng, mix: Mix, spec: bool, allow_drop: bool) -> Vec<O
             for _ in 0..len {
                 let reply = if allow_drop && r.chance(1, 9) {
                     Reply::Drop
+                } else if exec && r.chance(1, 10) {
+                    Reply::Unprepared
+                } else if r.chance(1, 25) {
+                    Reply::BadError
                 } else if r.chance(1, 12) {
                     Reply::Ok
                 } else {
@@ -464,14 +473,16 @@ fn gen_req(r: &mut Rng, mix: Mix, default: &Cfg, allow_drop: bool) -> Req {
     let stmt_cl = if r.chance(1, 3) { Some(gen_cl(r)) } else { None };
     let spec = profile.as_ref().unwrap_or(default).spec.is_some();
     let npages = if api.paged() { r.range(1, 3) as usize } else { 1 };
-    let pages = (0..npages).map(|_| gen_page_script(r, mix, spec, allow_drop)).collect();
+    let exec = matches!(api, Api::EU | Api::ES | Api::EI);
+    let pages = (0..npages).map(|_| gen_page_script(r, mix, spec, allow_drop, exec)).collect();
     Req { api, idem, profile, stmt_pol, stmt_cl, pages }
 }
 
 /// The fixed shapes: seed s < 7: api s, the first frame of every page is answered with a success
 /// after SLOW_MS; 7 <= s < 14: the same with an Unavailable error (a "safe" error: the request may
 /// be sent again, but only after the error has been received).  Each with a speculative policy in
-/// the profile and three requests: not idempotent, idempotent, not idempotent without a policy.
+/// the profile and five requests: not idempotent, idempotent, not idempotent with an own profile (max 1),
+/// not idempotent without a policy, idempotent with a policy of max_retry_count = 0.
 fn shape_scenario(s: u64) -> Scenario {
     let api = APIS[(s % 7) as usize];
     let first = if s < 7 { Reply::Ok } else { Reply::Err("Db.Unavailable:Quorum:2:1".into()) };
@@ -480,11 +491,13 @@ fn shape_scenario(s: u64) -> Scenario {
     let default = Cfg { pol: 0, spec: Some((2, INTERVAL_MS)), cl: Consistency::Quorum };
     let own = Cfg { pol: 0, spec: Some((1, INTERVAL_MS)), cl: Consistency::One };
     let nospec = Cfg { pol: 0, spec: None, cl: Consistency::Quorum };
+    // max_retry_count = 0: a policy that allows no speculative execution at all
+    let zero = Cfg { pol: 0, spec: Some((0, INTERVAL_MS)), cl: Consistency::Quorum };
     let mk = |idem: bool, profile: Option<Cfg>| Req { api, idem, profile, stmt_pol: None, stmt_cl: None, pages: script() };
     Scenario {
         nnodes: 3,
         default,
-        reqs: vec![mk(false, None), mk(true, None), mk(false, Some(own)), mk(false, Some(nospec))],
+        reqs: vec![mk(false, None), mk(true, None), mk(false, Some(own)), mk(false, Some(nospec)), mk(true, Some(zero))],
     }
 }
 
@@ -608,7 +621,10 @@ fn handler(st: Arc<Mutex<HState>>) -> Handler {
         let pg = page.min(npages - 1);
         let k = sc.arrivals[pg];
         sc.arrivals[pg] += 1;
-        let out = sc.pages[pg].get(k).cloned().unwrap_or(Outcome { delay_ms: 0, reply: Reply::Ok });
+        let mut out = sc.pages[pg].get(k).cloned().unwrap_or(Outcome { delay_ms: 0, reply: Reply::Ok });
+        if out.reply == Reply::Unprepared && ctx.opcode != op::EXECUTE {
+            out.reply = Reply::Ok;
+        }
         g.frames.push(FrameRec { marker, page, node: ctx.node, conn_id: ctx.conn_id, stream: ctx.stream, cl, reply: out.reply.clone() });
         let mut acts = Vec::new();
         if out.delay_ms > 0 {
@@ -628,6 +644,9 @@ fn handler(st: Arc<Mutex<HState>>) -> Handler {
             }
             Reply::Err(tok) => Action::Error(ErrorSpec::new(db_err_of(tok), "scripted")),
             Reply::Drop => Action::Close(CutKind::Rst),
+            Reply::Unprepared => Action::Unprepared,
+            // error code 0x1000 (Unavailable) without its fields
+            Reply::BadError => Action::RawBody { opcode: op::ERROR, body: vec![0x00, 0x00, 0x10, 0x00, 0x00, 0x00] },
         });
         Some(acts)
     })
@@ -840,6 +859,8 @@ async fn run_request(session: &Session, cluster: &MockCluster, prepared: &Prepar
 }
 
 struct TrFrame {
+    conn: u64,
+    idx: usize,
     node: usize,
     cl: u16,
     a: u64,
@@ -1015,6 +1036,8 @@ pub async fn run_scenario(mix: Mix, sseed: u64, thorough: bool) -> String {
                     ans = match (&fr.reply, *opcode) {
                         (Reply::Ok, op::RESULT) => "ok".into(),
                         (Reply::Err(t), op::ERROR) => format!("X{}", t),
+                        (Reply::Unprepared, op::ERROR) => "XDb.Unprepared".into(),
+                        (Reply::BadError, op::ERROR) => "XE.CqlErrorParseError".into(),
                         _ => "?".into(),
                     };
                     break;
@@ -1029,12 +1052,38 @@ pub async fn run_scenario(mix: Mix, sseed: u64, thorough: bool) -> String {
                 _ => {}
             }
         }
-        frames.entry((m, p)).or_default().push(TrFrame { node: fr.node, cl: fr.cl, a: tmono[i], b, ans });
+        frames.entry((m, p)).or_default().push(TrFrame { conn, idx: i, node: fr.node, cl: fr.cl, a: tmono[i], b, ans });
     }
     drop(g);
-
-    // ---- records ----
-    let mut out: Vec<String> = vec![format!("env:{}", sc.nnodes)];
+    // EXECUTE -> UNPREPARED -> PREPARE -> EXECUTE on the same connection is ONE attempt of the driver
+    // (Connection::execute re-prepares and repeats inside the attempt): merge the two frames
+    let mut reprepares = 0usize;
+    for v in frames.values_mut() {
+        let mut k = 0;
+        while k < v.len() {
+            // the next frame of this (marker, page) on the same connection (frames of other fibers may
+            // lie in between)
+            let next = (k + 1..v.len()).find(|&j| v[j].conn == v[k].conn);
+            let merged = match next {
+                Some(j) if v[k].ans == "XDb.Unprepared"
+                    && v[k].b.is_some_and(|b| b <= v[j].a)
+                    && trace[v[k].idx..v[j].idx].iter().any(|e| e.conn_id == v[k].conn && e.is_in(op::PREPARE)) =>
+                {
+                    let second = v.remove(j);
+                    v[k].b = second.b;
+                    v[k].ans = second.ans;
+                    v[k].cl = second.cl;
+                    reprepares += 1;
+                    true
+                }
+                _ => false,
+            };
+            if !merged {
+                k += 1;
+            }
+        }
+    }
+    let mut out: Vec<String> = vec![format!("env:{}:rp{}", sc.nnodes, reprepares)];
     for (i, ro) in robs.iter().enumerate() {
         let req = &sc.reqs[i];
         let mut pages: Vec<(usize, Option<u64>, u64, String, Option<usize>)> = ro.pages.iter().map(|p| (p.page, p.t0, p.tret, p.res.clone(), p.co)).collect();
